@@ -318,8 +318,12 @@ pub fn process_file_with_cache(
             return FileProcessResult::Skipped(FileSkipReason::IgnoredByDirective);
         };
 
-        // Update cache with metadata (lock errors here are non-critical, just skip update)
-        if let Ok(mut cache_guard) = cache.lock() {
+        // Update cache with metadata (lock errors here are non-critical, just skip update).
+        // A file modified within the current second is not cached yet: mtime has one-second
+        // resolution, so a later same-size rewrite inside that second would be
+        // indistinguishable from the content counted here ("racy timestamp").
+        let settled = crate::state::try_current_unix_timestamp().is_some_and(|now| mtime < now);
+        if settled && let Ok(mut cache_guard) = cache.lock() {
             cache_guard.set(&path_key, file_hash, &result, mtime, size);
         }
 
